@@ -17,17 +17,18 @@ pub fn property<C: Codec>() -> Property {
     }
 }
 
-/// a user request the oracle can recognise on the wire: DIRECT_OPERATE of one g41v2 with a unique 16-bit index
-fn tagged_command(tag: u16) -> UserKind {
+/// a user request the oracle can recognise on the wire: DIRECT_OPERATE - or SELECT then OPERATE, a task of two requests - of one
+/// g41v2 with a unique 16-bit index
+fn tagged_command(tag: u16, sbo: bool) -> UserKind {
     UserKind::Command {
-        sbo: false,
+        sbo,
         headers: vec![vec![(2, tag, true)]],
     }
 }
 
 fn tag_of_request(bytes: &[u8]) -> Option<u16> {
     // [ctrl, 5, 41, 2, 0x28, 1, 0, index lo, index hi, ...]
-    if bytes.len() >= 9 && bytes[1] == 5 && bytes[2] == 41 && bytes[3] == 2 && bytes[4] == 0x28 {
+    if bytes.len() >= 9 && (bytes[1] == 5 || bytes[1] == 3) && bytes[2] == 41 && bytes[3] == 2 && bytes[4] == 0x28 {
         Some(u16::from_le_bytes([bytes[7], bytes[8]]))
     } else {
         None
@@ -152,7 +153,7 @@ impl Scenario for ScheduleScenario {
                         tag += 1;
                         script.push(MOp::User {
                             assoc: rng.urange(0, nassoc - 1),
-                            kind: tagged_command(tag),
+                            kind: tagged_command(tag, rng.chance(1, 3)),
                         });
                     }
                 }
